@@ -124,7 +124,7 @@ def _op():
         st.tuples(st.just('poplast'), st.one_of(st.none(), _ki), st.one_of(st.none(), _vi)),
         st.tuples(st.just('popitem')),
         st.tuples(st.just('clear')),
-        st.tuples(st.just('copy'), st.sampled_from(['copy', 'copy.copy', 'deepcopy', 'pickle2', 'pickle4', 'pickle5', 'ctor'])),
+        st.tuples(st.just('copy'), st.sampled_from(['copy', 'copy.copy', 'deepcopy', 'pickle0', 'pickle1', 'pickle2', 'pickle4', 'pickle5', 'ctor'])),
         # one and the same argument object passed again after the caller changed it (the OMD must not have adopted it)
         st.tuples(st.just('addlist_shared'), _ki, st.lists(_vi, max_size=3)),
         st.tuples(st.just('update_shared'), st.sampled_from(['update', 'update_extend']), _pairs),
@@ -585,6 +585,8 @@ def run(case):
                     'copy': lambda: omd.copy(),
                     'copy.copy': lambda: copy.copy(omd),
                     'deepcopy': lambda: copy.deepcopy(omd),
+                    'pickle0': lambda: pickle.loads(pickle.dumps(omd, 0)),
+                    'pickle1': lambda: pickle.loads(pickle.dumps(omd, 1)),
                     'pickle2': lambda: pickle.loads(pickle.dumps(omd, 2)),
                     'pickle4': lambda: pickle.loads(pickle.dumps(omd, 4)),
                     'pickle5': lambda: pickle.loads(pickle.dumps(omd, 5)),
